@@ -164,6 +164,9 @@ fn entry_variants(s: &mut Src, nmods: usize) -> (String, String) {
 
 pub struct C14;
 impl Check for C14 {
+    fn fuzz_runs(&self) -> u64 {
+        20000
+    }
     fn id(&self) -> &'static str {
         "C14"
     }
